@@ -5,6 +5,7 @@ import (
 	"fmt"
 	"github.com/itchio/savior"
 	"github.com/itchio/wharf/pwr"
+	"github.com/pkg/errors"
 	"io"
 	"os"
 	"sort"
@@ -163,6 +164,38 @@ func c17Check(env *Env, m *wvlib.Model, c *C17Case, patch []byte, od string, new
 		}
 		if r.touched != want {
 			env.R.Violate("touched-count", fmt.Sprintf("touched=%d, whitelisted files=%d", r.touched, want), c)
+		}
+		if c.Seed%3 == 1 {
+			// the same whitelisted application stopped at EVERY checkpoint and resumed: with one patcher resumed
+			// again and again its count, with a new patcher per session the sum of the counts, is the number of
+			// whitelisted files; the files come out as before
+			for _, same := range []bool{true, false} {
+				out2 := base + "/outwl-sr"
+				touched, stops, err := c17StopResumeTouched(patch, od, out2, wlArg, same)
+				tag := "new-patcher-per-session"
+				if same {
+					tag = "one-patcher"
+				}
+				if err != nil {
+					env.R.Violate("whitelist-resume-fails:"+tag, fmt.Sprintf("after %d stops: %v", stops, err), c)
+				} else {
+					if touched != want {
+						env.R.Violate("touched-count:stop-resume:"+tag, fmt.Sprintf("touched=%d over %d sessions, whitelisted files=%d", touched, stops+1, want), c)
+					}
+					for i, f := range newC.Files {
+						if !inW(int64(i)) {
+							continue
+						}
+						if got, _ := os.ReadFile(out2 + "/" + f.Path); !bytes.Equal(got, nwFiles[i]) {
+							env.R.Violate("whitelisted-file-differs-after-resume:"+tag, fmt.Sprintf("%s after %d stops", f.Path, stops), c)
+							break
+						}
+					}
+				}
+				os.RemoveAll(out2)
+				env.R.Count("whitelist-stop-resume:"+tag, 1)
+				env.R.Count("whitelist-stop-resume:stops", int64(stops))
+			}
 		}
 		for _, cl := range r.calls {
 			var i, t int64
@@ -618,4 +651,55 @@ func runC17(env *Env) {
 		}
 	})
 	stopModels(env, models)
+}
+
+// c17StopResumeTouched applies the patch with the whitelist in sessions that stop at every checkpoint offered, every
+// session with a new fresh bowl and pool and either the same patcher (samePatcher) or a new one; returns the touched
+// count (of the one patcher, or summed over the patchers) and the number of stops.
+func c17StopResumeTouched(patch []byte, oldDir, outDir string, wl map[int64]bool, samePatcher bool) (touched int64, stops int, err error) {
+	defer func() {
+		if r := recover(); r != nil {
+			err = fmt.Errorf("PANIC %v", r)
+		}
+	}()
+	var p patcher.Patcher
+	var ck *patcher.Checkpoint
+	for {
+		if p == nil || !samePatcher {
+			if p != nil {
+				touched += p.GetTouchedFiles()
+			}
+			if p, err = patcher.New(seeksource.FromBytes(patch), quietConsumer); err != nil {
+				return touched, stops, err
+			}
+			if wl != nil {
+				p.SetSourceIndexWhitelist(wl)
+			}
+		}
+		sv := &recSaver{stopAt: 0, every: 1}
+		p.SetSaveConsumer(sv)
+		pool := fspool.New(p.GetTargetContainer(), oldDir)
+		b, berr := bowl.NewFreshBowl(bowl.FreshBowlParams{SourceContainer: p.GetSourceContainer(), TargetContainer: p.GetTargetContainer(), TargetPool: pool, OutputFolder: outDir})
+		if berr != nil {
+			return touched, stops, berr
+		}
+		rerr := p.Resume(ck, pool, b)
+		if rerr == nil {
+			if err = b.Commit(); err != nil {
+				return touched, stops, err
+			}
+			return touched + p.GetTouchedFiles(), stops, b.Close()
+		}
+		b.Close()
+		if errors.Cause(rerr) != patcher.ErrStop || len(sv.saved) == 0 {
+			return touched, stops, rerr
+		}
+		stops++
+		if stops > 100000 {
+			return touched, stops, fmt.Errorf("no progress")
+		}
+		if ck, err = decodeCheckpoint(sv.saved[len(sv.saved)-1]); err != nil {
+			return touched, stops, err
+		}
+	}
 }
